@@ -26,6 +26,7 @@ pub use crate::net::verif_encode_frame as encode_frame;
 pub use crate::net::verif_read_frame as read_frame;
 pub use crate::net::VerifFrameReader as FrameReader;
 pub use crate::node::verif_elect as elect;
+pub use crate::node::verif_state::VerifNodeState;
 
 use crate::node::auth::ClientAuthenticationProcess;
 use crate::node::auth::ServerAuthenticationProcess;
@@ -99,4 +100,102 @@ impl ClientFsm {
             _ => None,
         }
     }
+}
+
+// ------------------------------------------------------------------------------------------------
+// Connection nonces: a harness fixes the nonce a dialling session will announce (0 = legacy peer),
+// keyed by the label of the external stream the NodeServer is about to wrap.
+// ------------------------------------------------------------------------------------------------
+use std::collections::HashMap;
+use std::sync::Mutex;
+
+static NONCE_BY_LABEL: Mutex<Option<HashMap<String, u64>>> = Mutex::new(None);
+static NONCE_NEXT: Mutex<Option<u64>> = Mutex::new(None);
+
+/// The session dialled over the stream whose `peer_label()` is `label` announces `nonce`
+pub fn set_connection_id_for(label: &str, nonce: u64) {
+    let mut g = NONCE_BY_LABEL.lock().unwrap_or_else(|e| e.into_inner());
+    g.get_or_insert_with(HashMap::new).insert(label.to_string(), nonce);
+}
+pub fn clear_connection_ids() {
+    *NONCE_BY_LABEL.lock().unwrap_or_else(|e| e.into_inner()) = None;
+    *NONCE_NEXT.lock().unwrap_or_else(|e| e.into_inner()) = None;
+}
+/// called by the node server right before it constructs the session for an external stream
+pub(crate) fn dialling(label: Option<&str>) {
+    let g = NONCE_BY_LABEL.lock().unwrap_or_else(|e| e.into_inner());
+    let v = label.and_then(|l| g.as_ref().and_then(|m| m.get(l).copied()));
+    *NONCE_NEXT.lock().unwrap_or_else(|e| e.into_inner()) = v;
+}
+/// called by `NodeSession::new_connection_id`
+pub(crate) fn take_connection_id() -> Option<u64> {
+    NONCE_NEXT.lock().unwrap_or_else(|e| e.into_inner()).take()
+}
+
+// ------------------------------------------------------------------------------------------------
+// Node-server steps (emit-only): one event per handled message that touches the session table
+// ------------------------------------------------------------------------------------------------
+use ractor::verif::Val;
+
+fn kvs(k: &str, v: &str) -> (String, Val) {
+    (k.to_string(), Val::S(v.to_string()))
+}
+fn kvi(k: &str, v: i64) -> (String, Val) {
+    (k.to_string(), Val::I(v))
+}
+pub(crate) fn ns_open(node: &str, actor: ractor::ActorId, label: &str, is_server: bool) {
+    ractor::verif::emit_kv("ns.open", actor.pid(), i64::from(is_server), vec![kvs("node", node), kvs("label", label)]);
+}
+pub(crate) fn ns_update(node: &str, actor: ractor::ActorId, peer: &str, nonce: u64, known: bool) {
+    ractor::verif::emit_kv("ns.update", actor.pid(), i64::from(known), vec![kvs("node", node), kvs("peer", peer), kvi("nonce", nonce as i64)]);
+}
+pub(crate) fn ns_check(node: &str, peer: &str, nonce: u64, reply: &crate::node::SessionCheckReply) {
+    let r = match reply {
+        crate::node::SessionCheckReply::NoOtherConnection => "no_other",
+        crate::node::SessionCheckReply::OtherConnectionContinues => "other",
+        crate::node::SessionCheckReply::ThisConnectionContinues => "this",
+        crate::node::SessionCheckReply::DuplicateConnection => "duplicate",
+    };
+    ractor::verif::emit_kv("ns.check", 0, 0, vec![kvs("node", node), kvs("peer", peer), kvi("nonce", nonce as i64), kvs("reply", r)]);
+}
+pub(crate) fn ns_commit(node: &str, actor: ractor::ActorId, survives: bool, losers: Vec<i64>) {
+    ractor::verif::emit_kv("ns.commit", actor.pid(), i64::from(survives), vec![kvs("node", node), ("losers".to_string(), Val::L(losers))]);
+}
+pub(crate) fn ns_ready(node: &str, actor: ractor::ActorId, elected: bool) {
+    ractor::verif::emit_kv("ns.ready", actor.pid(), i64::from(elected), vec![kvs("node", node)]);
+}
+pub(crate) fn ns_gone(node: &str, actor: ractor::ActorId, known: bool) {
+    ractor::verif::emit_kv("ns.gone", actor.pid(), i64::from(known), vec![kvs("node", node)]);
+}
+
+// ------------------------------------------------------------------------------------------------
+// Remote actors (emit-only): tag allocation / resolution in the proxy, relay steps in the session
+// ------------------------------------------------------------------------------------------------
+fn remote_parts(id: ractor::ActorId) -> (u64, i64) {
+    match id {
+        ractor::ActorId::Remote { node_id, pid } => (pid, node_id as i64),
+        ractor::ActorId::Local(pid) => (pid, -1),
+    }
+}
+/// the proxy forwarded a cast (tag 0) or a call (fresh tag) to its session
+pub(crate) fn proxy_fwd(id: ractor::ActorId, kind: &str, tag: u64) {
+    let (pid, node_id) = remote_parts(id);
+    ractor::verif::emit_kv("proxy.fwd", pid, tag as i64, vec![kvi("node_id", node_id), kvs("k", kind)]);
+}
+/// the proxy handles a reply frame with this tag; `hit` = a reply port is parked under it
+pub(crate) fn proxy_resolve(id: ractor::ActorId, tag: u64, hit: bool) {
+    let (pid, node_id) = remote_parts(id);
+    ractor::verif::emit_kv("proxy.resolve", pid, tag as i64, vec![kvi("node_id", node_id), kvi("hit", i64::from(hit))]);
+}
+/// a session received a request frame for local pid `to`; `ok` = it is advertised, alive and remotable
+pub(crate) fn sess_fwd(node: &str, to: u64, kind: &str, tag: u64, ok: bool) {
+    ractor::verif::emit_kv("sess.fwd", to, tag as i64, vec![kvs("node", node), kvs("k", kind), kvi("ok", i64::from(ok))]);
+}
+/// a session received a reply frame for the proxy of remote pid `to`
+pub(crate) fn sess_reply(node: &str, to: u64, tag: u64, ok: bool) {
+    ractor::verif::emit_kv("sess.reply", to, tag as i64, vec![kvs("node", node), kvi("ok", i64::from(ok))]);
+}
+/// a session handles a control frame about remote pid `pid` (spawn / term / join / leave)
+pub(crate) fn sess_ctl(node: &str, kind: &str, pid: u64, group: &str) {
+    ractor::verif::emit_kv("sess.ctl", pid, 0, vec![kvs("node", node), kvs("k", kind), kvs("group", group)]);
 }
